@@ -61,7 +61,7 @@ func init() {
 			// close whatever is still open, by ledger only (never by scanning numbers)
 			for _, r := range l.Recs {
 				if r.Open {
-					syscall.Close(r.Fd)
+					rawClose(r.Fd)
 					r.Open = false
 					r.Closes = -1 - r.Closes // mark: closed by teardown, not by the program
 				}
@@ -115,12 +115,72 @@ func Disown(fd int) {
 	}
 }
 
+// ptf is pt with a lazily rendered description (only formatted when tracing).
+//
+//go:norace
+func ptf(format string, args ...interface{}) {
+	if ex := vsched.Cur(); ex != nil {
+		what := ""
+		if ex.TraceOn {
+			what = fmt.Sprintf(format, args...)
+		} else {
+			what = format
+		}
+		vsched.Point(vsched.KSys, vsched.ObjKernel, true, what)
+	}
+}
+
 //go:norace
 func pt(what string) {
 	if vsched.Active() {
 		vsched.Point(vsched.KSys, vsched.ObjKernel, true, what)
 	}
 }
+
+// Raw (non-blocking) system calls: every descriptor the harness and netpoll use is
+// non-blocking, so the runtime's entersyscall/exitsyscall bookkeeping (and the P hand-off
+// it triggers when many spinning goroutines are runnable) is unnecessary and costly.
+
+//go:norace
+func rawClose(fd int) error {
+	_, _, e := syscall.RawSyscall(syscall.SYS_CLOSE, uintptr(fd), 0, 0)
+	if e != 0 {
+		return e
+	}
+	return nil
+}
+
+//go:norace
+func rawRead(fd int, p []byte) (int, error) {
+	var ptr unsafe.Pointer
+	if len(p) > 0 {
+		ptr = unsafe.Pointer(&p[0])
+	} else {
+		ptr = unsafe.Pointer(&zeroByte)
+	}
+	r, _, e := syscall.RawSyscall(syscall.SYS_READ, uintptr(fd), uintptr(ptr), uintptr(len(p)))
+	if e != 0 {
+		return -1, e
+	}
+	return int(r), nil
+}
+
+//go:norace
+func rawWrite(fd int, p []byte) (int, error) {
+	var ptr unsafe.Pointer
+	if len(p) > 0 {
+		ptr = unsafe.Pointer(&p[0])
+	} else {
+		ptr = unsafe.Pointer(&zeroByte)
+	}
+	r, _, e := syscall.RawSyscall(syscall.SYS_WRITE, uintptr(fd), uintptr(ptr), uintptr(len(p)))
+	if e != 0 {
+		return -1, e
+	}
+	return int(r), nil
+}
+
+var zeroByte byte
 
 // ---------------------------------------------------------------- netpoll-facing wrappers
 
@@ -129,7 +189,7 @@ func Close(fd int) error {
 	if !vsched.Active() || led == nil {
 		return syscall.Close(fd)
 	}
-	pt(fmt.Sprintf("close(%d)", fd))
+	ptf("close(%d)", fd)
 	l := led
 	r := l.find(fd)
 	if r == nil {
@@ -142,20 +202,25 @@ func Close(fd int) error {
 	}
 	r.Open = false
 	r.Closes++
-	l.CloseLog = append(l.CloseLog, fmt.Sprintf("close(%d %s)", fd, r.Kind))
-	return syscall.Close(fd)
+	return rawClose(fd)
 }
 
 //go:norace
 func Read(fd int, p []byte) (int, error) {
-	pt(fmt.Sprintf("read(%d)", fd))
-	return syscall.Read(fd, p)
+	ptf("read(%d)", fd)
+	if !vsched.Active() {
+		return syscall.Read(fd, p)
+	}
+	return rawRead(fd, p)
 }
 
 //go:norace
 func Write(fd int, p []byte) (int, error) {
-	pt(fmt.Sprintf("write(%d,%d)", fd, len(p)))
-	return syscall.Write(fd, p)
+	ptf("write(%d,%d)", fd, len(p))
+	if !vsched.Active() {
+		return syscall.Write(fd, p)
+	}
+	return rawWrite(fd, p)
 }
 
 //go:norace
@@ -181,7 +246,7 @@ func Socketpair(domain, typ, proto int) ([2]int, error) {
 
 //go:norace
 func Accept(fd int) (int, syscall.Sockaddr, error) {
-	pt(fmt.Sprintf("accept(%d)", fd))
+	ptf("accept(%d)", fd)
 	if vsched.Active() && led != nil && led.Dev.AcceptEMFILE {
 		if vsched.Choose(2, "accept:EMFILE") == 1 {
 			return -1, nil, syscall.EMFILE
@@ -196,7 +261,7 @@ func Accept(fd int) (int, syscall.Sockaddr, error) {
 
 //go:norace
 func Connect(fd int, sa syscall.Sockaddr) error {
-	pt(fmt.Sprintf("connect(%d)", fd))
+	ptf("connect(%d)", fd)
 	return syscall.Connect(fd, sa)
 }
 
@@ -208,8 +273,23 @@ func Bind(fd int, sa syscall.Sockaddr) error {
 
 //go:norace
 func SetNonblock(fd int, nb bool) error {
-	pt(fmt.Sprintf("setnonblock(%d)", fd))
-	return syscall.SetNonblock(fd, nb)
+	ptf("setnonblock(%d)", fd)
+	if !vsched.Active() {
+		return syscall.SetNonblock(fd, nb)
+	}
+	fl, _, e := syscall.RawSyscall(syscall.SYS_FCNTL, uintptr(fd), syscall.F_GETFL, 0)
+	if e != 0 {
+		return e
+	}
+	if nb {
+		fl |= syscall.O_NONBLOCK
+	} else {
+		fl &^= syscall.O_NONBLOCK
+	}
+	if _, _, e = syscall.RawSyscall(syscall.SYS_FCNTL, uintptr(fd), syscall.F_SETFL, fl); e != 0 {
+		return e
+	}
+	return nil
 }
 
 //go:norace
@@ -217,7 +297,7 @@ func CloseOnExec(fd int) { syscall.CloseOnExec(fd) }
 
 //go:norace
 func SetsockoptInt(fd, level, opt, value int) error {
-	pt(fmt.Sprintf("setsockopt(%d)", fd))
+	ptf("setsockopt(%d)", fd)
 	if vsched.Active() && led != nil && led.Dev.SockoptFail {
 		if vsched.Choose(2, "setsockopt:fail") == 1 {
 			return syscall.ENOPROTOOPT
@@ -228,31 +308,31 @@ func SetsockoptInt(fd, level, opt, value int) error {
 
 //go:norace
 func GetsockoptInt(fd, level, opt int) (int, error) {
-	pt(fmt.Sprintf("getsockopt(%d)", fd))
+	ptf("getsockopt(%d)", fd)
 	return syscall.GetsockoptInt(fd, level, opt)
 }
 
 //go:norace
 func Getpeername(fd int) (syscall.Sockaddr, error) {
-	pt(fmt.Sprintf("getpeername(%d)", fd))
+	ptf("getpeername(%d)", fd)
 	return syscall.Getpeername(fd)
 }
 
 //go:norace
 func Getsockname(fd int) (syscall.Sockaddr, error) {
-	pt(fmt.Sprintf("getsockname(%d)", fd))
+	ptf("getsockname(%d)", fd)
 	return syscall.Getsockname(fd)
 }
 
 //go:norace
 func Recvmsg(fd int, p, oob []byte, flags int) (n, oobn int, recvflags int, from syscall.Sockaddr, err error) {
-	pt(fmt.Sprintf("recvmsg(%d,flags=%#x)", fd, flags))
+	ptf("recvmsg(%d,flags=%#x)", fd, flags)
 	return syscall.Recvmsg(fd, p, oob, flags)
 }
 
 //go:norace
 func Shutdown(fd, how int) error {
-	pt(fmt.Sprintf("shutdown(%d,%d)", fd, how))
+	ptf("shutdown(%d,%d)", fd, how)
 	return syscall.Shutdown(fd, how)
 }
 
@@ -351,7 +431,7 @@ func RawSyscall(trap, a1, a2, a3 uintptr) (r1, r2 uintptr, err syscall.Errno) {
 	case syscall.SYS_SENDMSG:
 		mh := (*syscall.Msghdr)(unsafe.Pointer(a2))
 		total := iovTotal(mh.Iov, int(mh.Iovlen))
-		pt(fmt.Sprintf("sendmsg(%d,%d)", a1, total))
+		ptf("sendmsg(%d,%d)", a1, total)
 		if led.Dev.SendShort && total > 0 {
 			so := shortOptions(total)
 			c := vsched.Choose(2+len(so), "sendmsg")
@@ -369,7 +449,7 @@ func RawSyscall(trap, a1, a2, a3 uintptr) (r1, r2 uintptr, err syscall.Errno) {
 		return syscall.RawSyscall(trap, a1, a2, a3)
 	case syscall.SYS_WRITEV:
 		total := iovTotal((*syscall.Iovec)(unsafe.Pointer(a2)), int(a3))
-		pt(fmt.Sprintf("writev(%d,%d)", a1, total))
+		ptf("writev(%d,%d)", a1, total)
 		if led.Dev.SendShort && total > 0 {
 			so := shortOptions(total)
 			c := vsched.Choose(2+len(so), "writev")
@@ -384,7 +464,7 @@ func RawSyscall(trap, a1, a2, a3 uintptr) (r1, r2 uintptr, err syscall.Errno) {
 		return syscall.RawSyscall(trap, a1, a2, a3)
 	case syscall.SYS_READV:
 		total := iovTotal((*syscall.Iovec)(unsafe.Pointer(a2)), int(a3))
-		pt(fmt.Sprintf("readv(%d,cap=%d)", a1, total))
+		ptf("readv(%d,cap=%d)", a1, total)
 		if led.Dev.ReadShort && total > 0 {
 			// options: 0 real, 1 EAGAIN, 2 EINTR, 3.. short
 			so := []int{1, 2}
@@ -405,7 +485,7 @@ func RawSyscall(trap, a1, a2, a3 uintptr) (r1, r2 uintptr, err syscall.Errno) {
 		}
 		return syscall.RawSyscall(trap, a1, a2, a3)
 	}
-	pt(fmt.Sprintf("rawsyscall(%d)", trap))
+	ptf("rawsyscall(%d)", trap)
 	return syscall.RawSyscall(trap, a1, a2, a3)
 }
 
@@ -435,7 +515,7 @@ func RawSyscall6(trap, a1, a2, a3, a4, a5, a6 uintptr) (r1, r2 uintptr, err sysc
 		if a4 != 0 {
 			evs = (*epollEvent)(unsafe.Pointer(a4)).events
 		}
-		pt(fmt.Sprintf("epoll_ctl(%d,op=%d,fd=%d,ev=%#x)", a1, a2, a3, evs))
+		ptf("epoll_ctl(%d,op=%d,fd=%d,ev=%#x)", a1, a2, a3, evs)
 		if led.Dev.CtlFail && int(a2) == syscall.EPOLL_CTL_ADD {
 			if vsched.Choose(2, "epoll_ctl:fail") == 1 {
 				led.Ctl = append(led.Ctl, CtlRec{Epfd: int(a1), Op: int(a2), Fd: int(a3), Events: evs, Err: syscall.ENOMEM, Step: vsched.Cur().Steps})
@@ -448,7 +528,7 @@ func RawSyscall6(trap, a1, a2, a3, a4, a5, a6 uintptr) (r1, r2 uintptr, err sysc
 	case syscall.SYS_EPOLL_WAIT:
 		return epollWait(a1, a2, a3, a4)
 	}
-	pt(fmt.Sprintf("rawsyscall6(%d)", trap))
+	ptf("rawsyscall6(%d)", trap)
 	return syscall.RawSyscall6(trap, a1, a2, a3, a4, a5, a6)
 }
 
@@ -471,12 +551,12 @@ func epollWait(epfd, events, n, msec uintptr) (r1, r2 uintptr, err syscall.Errno
 			// is being deregistered elsewhere); model it as a yielding spin.
 			vsched.Yield()
 		}
-		pt(fmt.Sprintf("epoll_wait(%d,0)", epfd))
+		ptf("epoll_wait(%d,0)", epfd)
 	} else {
 		vsched.HogHint(true)
 		var lastEpoch uint64 = ^uint64(0)
 		var last bool
-		vsched.Block(vsched.KEpollWait, vsched.ObjKernel, fmt.Sprintf("epoll_wait(%d,block)", epfd), func() bool {
+		vsched.Block(vsched.KEpollWait, vsched.ObjKernel, "epoll_wait(block)", func() bool {
 			if e := ex.Epoch(); e != lastEpoch {
 				lastEpoch = e
 				last = Readable(int(epfd))
@@ -497,51 +577,51 @@ func epollWait(epfd, events, n, msec uintptr) (r1, r2 uintptr, err syscall.Errno
 //go:norace
 func HSocketpair(sndbuf int) (a, b int) {
 	pt("H:socketpair")
-	fds, err := syscall.Socketpair(syscall.AF_UNIX, syscall.SOCK_STREAM|syscall.SOCK_NONBLOCK|syscall.SOCK_CLOEXEC, 0)
-	if err != nil {
-		panic(err)
+	var fds [2]int32
+	if _, _, e := syscall.RawSyscall6(syscall.SYS_SOCKETPAIR, syscall.AF_UNIX, syscall.SOCK_STREAM|syscall.SOCK_NONBLOCK|syscall.SOCK_CLOEXEC, 0, uintptr(unsafe.Pointer(&fds)), 0, 0); e != 0 {
+		panic(e)
 	}
 	if sndbuf > 0 {
-		syscall.SetsockoptInt(fds[0], syscall.SOL_SOCKET, syscall.SO_SNDBUF, sndbuf)
-		syscall.SetsockoptInt(fds[1], syscall.SOL_SOCKET, syscall.SO_SNDBUF, sndbuf)
+		syscall.SetsockoptInt(int(fds[0]), syscall.SOL_SOCKET, syscall.SO_SNDBUF, sndbuf)
+		syscall.SetsockoptInt(int(fds[1]), syscall.SOL_SOCKET, syscall.SO_SNDBUF, sndbuf)
 	}
 	if led != nil {
-		led.created(fds[0], "pair", "harness")
-		led.created(fds[1], "pair", "harness")
+		led.created(int(fds[0]), "pair", "harness")
+		led.created(int(fds[1]), "pair", "harness")
 	}
-	return fds[0], fds[1]
+	return int(fds[0]), int(fds[1])
 }
 
 //go:norace
 func HWrite(fd int, p []byte) (int, error) {
-	pt(fmt.Sprintf("H:write(%d,%d)", fd, len(p)))
-	return syscall.Write(fd, p)
+	ptf("H:write(%d,%d)", fd, len(p))
+	return rawWrite(fd, p)
 }
 
 //go:norace
 func HRead(fd int, p []byte) (int, error) {
-	pt(fmt.Sprintf("H:read(%d)", fd))
-	return syscall.Read(fd, p)
+	ptf("H:read(%d)", fd)
+	return rawRead(fd, p)
 }
 
 //go:norace
 func HShutdown(fd, how int) error {
-	pt(fmt.Sprintf("H:shutdown(%d,%d)", fd, how))
+	ptf("H:shutdown(%d,%d)", fd, how)
 	return syscall.Shutdown(fd, how)
 }
 
 //go:norace
 func HClose(fd int) error {
-	pt(fmt.Sprintf("H:close(%d)", fd))
+	ptf("H:close(%d)", fd)
 	if led != nil {
 		if r := led.find(fd); r != nil && r.Owner == "harness" {
 			r.Open = false
 			r.Closes++
-			return syscall.Close(fd)
+			return rawClose(fd)
 		}
 		return syscall.EBADF
 	}
-	return syscall.Close(fd)
+	return rawClose(fd)
 }
 
 // HReadable is a readiness probe usable inside WaitCond predicates.
